@@ -256,7 +256,7 @@ class OB:
         self.I.specs[f"{m.name}::{qual}"] = Spec(pre, apply)
 
     # ---- running
-    def paths(self, thunk):
+    def paths(self, thunk, max_paths=400):
         saved = list(self.hyps)
         # contract hypotheses are visible to the path pruner
         snaps = [(obj, _snapshot(obj)) for obj in self.tracked]
@@ -270,7 +270,7 @@ class OB:
                 self.I.assume(h)
             return thunk()
         try:
-            ps = explore(self.I, wrapped)
+            ps = explore(self.I, wrapped, max_paths=max_paths)
         except Unsupported as e:
             raise Unbound(str(e))
         for p in ps:
